@@ -22,6 +22,26 @@ impl E57Tag for Node<'_, '_> {
     }
 }
 
+/// Character data of an element: the concatenation of all its text and CDATA parts.
+/// Comments, processing instructions and child elements between them do not belong to the value.
+pub fn element_text(node: &Node) -> String {
+    node.children()
+        .filter(|n| n.is_text())
+        .filter_map(|n| n.text())
+        .collect()
+}
+
+/// Character data of a numeric element without surrounding XML white space, empty elements stand for zero.
+pub fn number_text(node: &Node) -> String {
+    let text = element_text(node);
+    let text = text.trim_matches([' ', '\t', '\n', '\r']);
+    if text.is_empty() {
+        String::from("0")
+    } else {
+        text.to_owned()
+    }
+}
+
 pub fn opt_string(parent_node: &Node, tag_name: &str) -> Result<Option<String>> {
     if let Some(tag) = parent_node.children().find(|n| n.is_e57_tag(tag_name)) {
         let expected_type = "String";
@@ -34,8 +54,7 @@ pub fn opt_string(parent_node: &Node, tag_name: &str) -> Result<Option<String>> 
         } else {
             Error::invalid(format!("XML tag '{tag_name}' has no 'type' attribute"))?
         }
-        let text = tag.text().unwrap_or("");
-        Ok(Some(text.to_string()))
+        Ok(Some(element_text(&tag)))
     } else {
         Ok(None)
     }
@@ -61,7 +80,7 @@ fn opt_num<T: FromStr + Sync + Send>(
         } else {
             Error::invalid(format!("XML tag '{tag_name}' has no 'type' attribute"))?
         }
-        let text = tag.text().unwrap_or("0");
+        let text = number_text(&tag);
         if let Ok(parsed) = text.parse::<T>() {
             Ok(Some(parsed))
         } else {
